@@ -27,6 +27,10 @@ MODULES = [
     "nodal",
     "intervals",
     "slp",
+    "mappingcols",
+    "split",
+    "orderbook",
+    "scaled",
 ]
 
 
